@@ -115,10 +115,14 @@ def drive(tier):
                 seq.append(r.choice(datas[:10]) if r.random() < 0.5 else bytes(r.getrandbits(8) for _ in range(r.randrange(0, 90))))
         seqs.append(seq)
     for seq in seqs:
+        how = len(R.recs) % 4
+
         def build():
-            sc = CScript(seq)
+            # the token sequence handed over as a list, a tuple, a one-shot iterator or a generator
+            src = seq if how == 0 else tuple(seq) if how == 1 else iter(seq) if how == 2 else (t for t in seq)
+            sc = CScript(src)
             it = list(sc)
-            return {"v": b2l(sc), "iter": [tok_json(t) for t in it], "rebuilt": b2l(CScript(it))}
+            return {"v": b2l(sc), "iter": [tok_json(t) for t in it], "rebuilt": b2l(CScript(iter(it)))}
         k, v = call(build)
         R.add("script.build", {"toks": [tok_json(t) for t in seq]}, outcome(k, v, lambda d: d))
     # ---- number codec
